@@ -107,3 +107,84 @@ func TestVerif_C13_slowconns(t *testing.T) {
 			})
 		})
 }
+
+// TestVerif_C13_closeswitch: a switch to client mode that is overtaken by Close. The switch has begun (the stream
+// handler is removed) and is collecting the host's connections when Close is called; the reachability event is
+// handled to its end all the same (Close waits for the event loop), so every inbound DHT stream that was open is
+// reset and a request written to it afterwards gets no answer: the node left server mode.
+func TestVerif_C13_closeswitch(t *testing.T) {
+	vh.Run(t, vh.Spec{Prop: "C13", Unit: "closeswitch", Quick: 120, Thorough: 3000, CostMs: 8,
+		Rule:    "Mode(ModeAuto) / Mode(ModeAutoServer) node in server mode with 1-3 open inbound streams (each served once) on a host whose Conns() takes 20 / 200 / 900 ms of virtual time; event private; as soon as the stream handler is removed (the switch has begun) and after a PRNG 10-90 % of the Conns() latency, Close; when Close has returned: every stream that was open is reset and its handler has returned, no handler is registered; non-trivial = Close returned after the switch had begun and before Conns() would have returned; distinct by (option, latency, streams, Close offset)",
+		Clauses: []string{"open-streams-reset-on-switch-to-client", "handlers-iff-mode-of-last-event"}},
+		func(c *vh.Case) {
+			c.Bubble(t, time.Hour, "mode-switch-hang", func(t *testing.T) {
+				r := c.R
+				opt := []ModeOpt{ModeAuto, ModeAutoServer}[r.Intn(2)]
+				lat := []time.Duration{20 * time.Millisecond, 200 * time.Millisecond, 900 * time.Millisecond}[c.Idx%3]
+				nd := vC13NewNode(t, c, opt, []int{3, 8, 20}[r.Intn(3)])
+				n := nd.n
+				defer n.Close()
+				pr := vInProto(n.D)
+				c.Set("mode_option", vC13ModeNames[opt])
+				c.Set("conns_latency", lat.String())
+				n.H.Emit(event.EvtLocalReachabilityChanged{Reachability: network.ReachabilityPublic})
+				time.Sleep(time.Millisecond)
+				synctest.Wait()
+				if !c.Check(n.H.Handler(pr) != nil, "handlers-iff-mode-of-last-event", "option %s after ReachabilityPublic: no stream handler registered", vC13ModeNames[opt]) {
+					return
+				}
+				for i, k := 0, 1+r.Intn(3); i < k; i++ {
+					st := vInOpen(n, nd.peer(), nil)
+					nd.serveCheck(st, "before")
+					nd.open = append(nd.open, st)
+				}
+				nOpen := len(nd.open)
+				n.H.Net.ConnsDelay.Store(int64(lat))
+				lg0 := len(n.H.HandlerLg)
+				n.H.Emit(event.EvtLocalReachabilityChanged{Reachability: network.ReachabilityPrivate})
+				began := false
+				for i := 0; i < 2000 && !began; i++ {
+					synctest.Wait()
+					for _, e := range n.H.HandlerLg[lg0:] {
+						if e.Proto == pr && !e.Set {
+							began = true
+						}
+					}
+					if !began {
+						time.Sleep(100 * time.Microsecond)
+					}
+				}
+				if !c.Check(began, "handlers-iff-mode-of-last-event", "option %s, event private: the stream handler was not removed within 200 ms", vC13ModeNames[opt]) {
+					return
+				}
+				tBegan := time.Now()
+				off := time.Duration(float64(lat) * (0.1 + 0.8*r.Float64()))
+				time.Sleep(off)
+				if err := n.D.Close(); err != nil {
+					c.Logf("Close returned %v", err)
+				}
+				closedAfter := time.Since(tBegan)
+				synctest.Wait()
+				c.Set("close_called_after_switch_began", off.String())
+				c.Set("close_returned_after_switch_began", closedAfter.String())
+				for _, o := range nd.open {
+					if !c.Check(o.L.WasReset() && o.Ended(), "open-streams-reset-on-switch-to-client", "a stream that was open when the node switched to client mode was not reset although the switch had begun %v before Close was called and Close has returned (reset=%v, handler returned=%v; Conns() takes %v)", off, o.L.WasReset(), o.Ended(), lat) {
+						// does the node still serve it?
+						req := nd.request()
+						_ = o.E.WriteMsg(req)
+						time.Sleep(time.Millisecond)
+						synctest.Wait()
+						out, detail := vC13Outcome(o, req)
+						c.Logf("witness: a request written to that stream afterwards: %s (%s)", out, detail)
+						o.E.Reset()
+					}
+				}
+				nd.open = nil
+				c.Check(n.H.Handler(pr) == nil, "handlers-iff-mode-of-last-event", "after the event private and Close a stream handler is registered")
+				synctest.Wait()
+				if off < lat {
+					c.Nontrivial(fmt.Sprintf("%s/%v/%d/%v", vC13ModeNames[opt], lat, nOpen, off))
+				}
+			})
+		})
+}
